@@ -120,6 +120,11 @@ def run_case(rng, tier, idx):
     cb = cu.copy()
     KT = kT(cu)
     c.expect('state vector not modified', np.array_equal(cb, cu))
+    crep, rk = gen.vec_repr(rng, cu, lists=False)
+    c.tag('repr:' + rk)
+    c.expect('fint independent of the memory layout of the state vector',
+             np.array_equal(np.asarray(cc.calc_fint(crep, inc=inc, return_u=True, silent=True), dtype=float), fint(cu)), rk)
+    c.expect('kT independent of the memory layout of the state vector', np.array_equal(cc.calc_kT(crep, inc=inc, silent=True).toarray(), KT), rk)
     scK = np.abs(KT) + 1e-9 * np.abs(KT).max() + 1e-300
     c.judge('kT symmetric', float((np.abs(KT - KT.T) / scK).max()), 1e-12)
     # linear coefficient at the undeformed state
